@@ -1,6 +1,7 @@
 """Execute one schedule document against the real driver, under the simulator.
 
 Execution is a pure function of (schedule document, code under /repo)."""
+import math
 import sys
 import traceback
 
@@ -134,6 +135,8 @@ def _resolve_times(places, times, hs, t0, tottime, H):
             u = p.get("ulps", 0)
             for _ in range(abs(u)):
                 v = float(np.nextafter(v, np.inf if u > 0 else -np.inf))
+        elif k == "int":
+            v = float(math.floor(t0) + p["v"])  # callers write save times as plain integers
         elif k == "lin":
             v = t0 + p["j"] * (tk(p["n"]) - t0) / p["m"]
         elif k == "stop":
@@ -533,6 +536,10 @@ class Executor:
             ts_arg = [np.float64(v) for v in ts]
         else:
             ts_arg = list(ts)
+        if tt in ("list", "tuple") and any(p.get("k") == "int" for p in op.get("tsave", [])):
+            # integral save times are handed over as Python ints, like callers write them
+            conv = [int(v) if float(v).is_integer() and abs(v) < 2 ** 40 else v for v in ts]
+            ts_arg = tuple(conv) if tt == "tuple" else conv
         mons = self._mons(op, s)
         directives = {"dtlocal": True} if r.dtlocal else {}
         if op.get("dir", {}).get("verbose"):
